@@ -22,7 +22,6 @@ import (
 	"io"
 	"strconv"
 
-	dtypeutils "github.com/siglens/siglens/pkg/common/dtypeutils"
 	"github.com/siglens/siglens/pkg/segment/query/iqr"
 	"github.com/siglens/siglens/pkg/segment/structs"
 	sutils "github.com/siglens/siglens/pkg/segment/utils"
@@ -119,7 +118,7 @@ const (
 )
 
 func compareFloat(a, b float64) compare {
-	if dtypeutils.AlmostEquals(a, b) {
+	if a == b {
 		return EQUAL
 	}
 
